@@ -11,7 +11,7 @@ use std::collections::BTreeSet;
 
 pub const ID: &str = "C19";
 
-pub const RULE: &str = "cases = (grammar, input, mode): C01/C02-class grammars extended with group([..; N]), group((..)), collect_exactly::<[T; N]>, folds, or_not, validate and recover_with, whose mapper closures (inserted at random nodes, with extra weight inside group arrays, repetition items and choice alternatives) create drop-tracked values (unique id, registered in a per-thread ledger of live ids; Clone registers a new id; Drop of an unknown id is recorded as a double drop); inputs derived (+edits, so that the k-th of N elements fails for every k) and random; templates (each fixed-size collection x every failing position) on all strings over {a,b,c} up to length L; parse and check. Oracle (no reference needed): while the ParseResult is alive, live ids == ids reachable from the output; after dropping it, no live id remains; no double drop at any time. Token sub-check: the same with a drop-tracked TOKEN type on &[T] and Stream inputs: after the parse, the result, the errors and the parser have been dropped, exactly the caller's tokens are live, each once. NON-TRIVIAL = values were created and a fixed-size collection or group was abandoned part-way (>= 1 tracked value existed when the parse of that node failed), or values were built inside a path that was then backtracked (created > reachable), or the parse failed after creating values; distinct = distinct (sub-check, grammar, input).";
+pub const RULE: &str = "cases = (grammar, input, mode): C01/C02-class grammars extended with group([..; N]), group((..)), collect_exactly::<[T; N]>, folds, or_not, validate and recover_with, whose mapper closures (inserted at random nodes, with extra weight inside group arrays, repetition items and choice alternatives) create drop-tracked values (unique id, registered in a per-thread ledger of live ids; Clone registers a new id; Drop of an unknown id is recorded as a double drop); inputs derived (+edits, so that the k-th of N elements fails for every k) and random; templates (each fixed-size collection x every failing position) on all strings over {a,b,c} up to length L; parse and check. Oracle (no reference needed): while the ParseResult is alive, live ids == ids reachable from the output; after dropping it, no live id remains; no double drop at any time. Token sub-check: the same with a drop-tracked TOKEN type on &[T] and Stream inputs: after the parse, the result, the errors and the parser have been dropped, exactly the caller's tokens are live, each once. A statically typed family with a zero-sized droppable output type (13 parsers: array / tuple groups, collect_exactly into [Z; N] and Box<[Z; N]>, Vec, folds; parse, check and a forced-Emit position) on every string over {a b c} up to length 5 / 7: creations minus drops must equal what the result holds, and zero after it is dropped. NON-TRIVIAL = values were created and a fixed-size collection or group was abandoned part-way (>= 1 tracked value existed when the parse of that node failed), or values were built inside a path that was then backtracked (created > reachable), or the parse failed after creating values; distinct = distinct (sub-check, grammar, input).";
 
 pub const ASSUMPTIONS: &[&str] = &[
     "the ledger is thread-local and reset before every case; parsers are built and dropped inside the case",
@@ -141,6 +141,9 @@ fn check_inner(sub: &str, g: &G, toks: &[char], l: &mut Local) -> CaseRes {
 }
 
 pub fn check_case(case: &Case, l: &mut Local) -> Result<(), Fail> {
+    if case.sub == "zst-static" {
+        return zst_case(&case.input, l).map_err(|(_, f)| f);
+    }
     check_inner(&case.sub, &case.g, &case.toks(), l).map_err(|(_, f)| f)
 }
 
@@ -188,6 +191,114 @@ pub fn templates() -> Vec<G> {
     out
 }
 
+
+// ---------------------------------------------------------------------------------------------
+// zero-sized output values with a destructor (statically typed: the builder's value type is not zero-sized). A
+// zero-sized droppable value is where pointer arithmetic over `MaybeUninit` slots and "is this check mode?" tests by
+// size go wrong without any memory error, so the balance of creations and drops is the only witness.
+
+thread_local! {
+    static Z_CREATED: std::cell::Cell<i64> = std::cell::Cell::new(0);
+    static Z_DROPPED: std::cell::Cell<i64> = std::cell::Cell::new(0);
+}
+#[derive(Debug)]
+struct Z;
+impl Z {
+    fn make(_: char) -> Z {
+        Z_CREATED.with(|c| c.set(c.get() + 1));
+        Z
+    }
+}
+impl Drop for Z {
+    fn drop(&mut self) {
+        Z_DROPPED.with(|c| c.set(c.get() + 1));
+    }
+}
+fn z_live() -> i64 {
+    Z_CREATED.with(|c| c.get()) - Z_DROPPED.with(|c| c.get())
+}
+
+fn zst_case(s: &str, l: &mut Local) -> CaseRes {
+    type EZ<'a> = extra::Err<Rich<'a, char>>;
+    let toks: Vec<char> = s.chars().collect();
+    let case = |name: &str| {
+        let mut c = Case::new(ID, "zst-static", &G::Empty, &toks);
+        c.extra = serde_json::json!({ "parser": name });
+        c
+    };
+    fn zp<'a>(c: char) -> chumsky::combinator::Map<chumsky::primitive::Just<char, &'a str, EZ<'a>>, char, fn(char) -> Z> {
+        just::<_, &'a str, EZ<'a>>(c).map(Z::make as fn(char) -> Z)
+    }
+    macro_rules! run {
+        ($name:expr, $p:expr, $count:expr) => {{
+            let name: &str = $name;
+            let p = $p;
+            for mode in 0..3 {
+                Z_CREATED.with(|c| c.set(0));
+                Z_DROPPED.with(|c| c.set(0));
+                let r = quietly(|| {
+                    let held: usize;
+                    match mode {
+                        0 => {
+                            let res = p.parse(s);
+                            held = res.output().map($count).unwrap_or(0);
+                            let live = z_live();
+                            drop(res);
+                            (held, live, z_live())
+                        }
+                        1 => {
+                            let res = p.check(s);
+                            let live = z_live();
+                            drop(res);
+                            (0, live, z_live())
+                        }
+                        _ => {
+                            // a Check-mode position below a combinator that needs its child's value (forces Emit)
+                            let q = p.clone().try_map(|x, _| Ok(x)).ignored();
+                            let res = q.parse(s);
+                            let live = z_live();
+                            drop(res);
+                            (0, live, z_live())
+                        }
+                    }
+                });
+                l.evals += 1;
+                let Ok((held, live, after)) = r else {
+                    return Err((case(name), Fail::new("C19/panic", format!("{} panicked on {:?}", name, s))));
+                };
+                let what = ["parse", "check", "try_map(..).ignored()"][mode];
+                if live != held as i64 {
+                    let sig = if live > held as i64 { "C19/leak" } else { "C19/double-drop" };
+                    return Err((case(name), Fail::new(sig, format!("{} on {:?} ({}): {} zero-sized values were created, {} dropped, while the result holds {}", name, s, what, Z_CREATED.with(|c| c.get()), Z_DROPPED.with(|c| c.get()), held))));
+                }
+                if after != 0 {
+                    let sig = if after > 0 { "C19/leak" } else { "C19/double-drop" };
+                    return Err((case(name), Fail::new(sig, format!("{} on {:?} ({}): after the result was dropped, created - dropped = {}", name, s, what, after))));
+                }
+                l.bump("zero_sized_value_runs");
+                if Z_CREATED.with(|c| c.get()) > 0 && held == 0 {
+                    l.bump("zero_sized_values_created_and_none_returned");
+                }
+            }
+        }};
+    }
+    let rest = || any::<&str, EZ>().repeated();
+    run!("group([a]).then_ignore(rest)", group([zp('a')]).then_ignore(rest()), |o: &[Z; 1]| o.len());
+    run!("group([a, b]).then_ignore(rest)", group([zp('a'), zp('b')]).then_ignore(rest()), |o: &[Z; 2]| o.len());
+    run!("group([a, b, a]).then_ignore(rest)", group([zp('a'), zp('b'), zp('a')]).then_ignore(rest()), |o: &[Z; 3]| o.len());
+    run!("group([a, b, c]).or_not().then_ignore(rest)", group([zp('a'), zp('b'), zp('c')]).or_not().then_ignore(rest()), |o: &Option<[Z; 3]>| o.as_ref().map(|a| a.len()).unwrap_or(0));
+    run!("group([a, b]).map(Some).or(a.then(rest).to(None))", group([zp('a'), zp('b')]).map(Some).or(zp('a').then(rest()).to(()).map(|()| None)).then_ignore(rest()), |o: &Option<[Z; 2]>| o.as_ref().map(|a| a.len()).unwrap_or(0));
+    run!("group((a, b)).then_ignore(rest)", group((zp('a'), zp('b'))).then_ignore(rest()), |_o: &(Z, Z)| 2usize);
+    run!("a.repeated().collect_exactly::<[Z; 2]>()", zp('a').repeated().collect_exactly::<[Z; 2]>().then_ignore(rest()), |o: &[Z; 2]| o.len());
+    run!("a.repeated().at_most(3).collect_exactly::<[Z; 3]>()", zp('a').repeated().at_most(3).collect_exactly::<[Z; 3]>().then_ignore(rest()), |o: &[Z; 3]| o.len());
+    run!("a.separated_by(b).collect_exactly::<[Z; 3]>().or_not()", zp('a').separated_by(just('b')).collect_exactly::<[Z; 3]>().or_not().then_ignore(rest()), |o: &Option<[Z; 3]>| o.as_ref().map(|a| a.len()).unwrap_or(0));
+    run!("a.repeated().exactly(2).collect_exactly::<Box<[Z; 2]>>()", zp('a').repeated().exactly(2).collect_exactly::<Box<[Z; 2]>>().then_ignore(rest()), |o: &Box<[Z; 2]>| o.len());
+    run!("a.repeated().collect::<Vec<Z>>()", zp('a').repeated().collect::<Vec<Z>>().then_ignore(rest()), |o: &Vec<Z>| o.len());
+    run!("a.foldl(b.repeated(), keep left)", zp('a').foldl(zp('b').repeated(), |a, _b| a).then_ignore(rest()), |_o: &Z| 1usize);
+    run!("a.then(b.or_not()).repeated().collect()", zp('a').then(zp('b').or_not()).repeated().collect::<Vec<(Z, Option<Z>)>>().then_ignore(rest()), |o: &Vec<(Z, Option<Z>)>| o.iter().map(|(_, b)| 1 + b.is_some() as usize).sum::<usize>());
+    Ok(())
+}
+
 pub fn decode(tape: &[u32]) -> (G, Vec<char>, &'static str) {
     let mut t = Tape::new(tape);
     let sub = ["str", "str", "tok-slice", "tok-stream"][t.pick(4)];
@@ -220,6 +331,15 @@ pub fn run(tier: Tier, seed: u64) -> i32 {
     ctx.par_jobs(&ts, |g, l| {
         for (i, s) in strings.iter().enumerate() {
             check_inner(["template-str", "template-tok-slice", "template-tok-stream"][i % 3].trim_start_matches("template-"), g, s, l)?;
+        }
+        Ok(())
+    });
+    // zero-sized droppable outputs (statically typed), every short string
+    let zstrings: Vec<String> = all_strings(&['a', 'b', 'c'], ctx.pick(5, 7)).into_iter().map(|v| v.into_iter().collect()).collect();
+    let zchunks: Vec<&[String]> = zstrings.chunks(64).collect();
+    ctx.par_jobs(&zchunks, |ch, l| {
+        for s in ch.iter() {
+            zst_case(s, l)?;
         }
         Ok(())
     });
